@@ -35,7 +35,9 @@ UsageInvs == {[Inv("output", "", m, "stdin", FALSE, {}, "", FALSE, FALSE, FALSE,
 InfoInvs == {[Inv("template", "", FALSE, "stdin", FALSE, {}, "", FALSE, st, FALSE, "wf", o) EXCEPT !.desc = TRUE] : st \in B, o \in {"pipe", "full"}}
             \cup {Inv(s, "", FALSE, "stdin", FALSE, {}, "", FALSE, FALSE, FALSE, "wf", "pipe") : s \in {"version", "help", "none", "bogus"}}
             \cup {Inv("version", "", FALSE, "stdin", FALSE, {}, "", FALSE, TRUE, FALSE, "wf", "pipe")}
-BaseInvs == OutputInvs \cup MkdirInvs \cup VerifyInvs \cup TemplateInvs \cup DotInvs \cup TimeoutInvs \cup WatchInvs \cup UsageInvs \cup InfoInvs
+\* a document of more than 1 MiB (tens of thousands of small roots): size must not change what an invocation is wired to
+BigInvs == {Inv("output", f, m, file, FALSE, {}, "", FALSE, FALSE, FALSE, "big", "pipe") : f \in {"", "json"}, m \in B, file \in {"stdin", "existing"}}
+BaseInvs == BigInvs \cup OutputInvs \cup MkdirInvs \cup VerifyInvs \cup TemplateInvs \cup DotInvs \cup TimeoutInvs \cup WatchInvs \cup UsageInvs \cup InfoInvs
 \* every invocation in its three spellings, with the argv words the real binary is given
 Spelled(S, sps) == {[ [i EXCEPT !.sp = sp] EXCEPT !.argv = Argv([i EXCEPT !.sp = sp])] : i \in S, sp \in sps}
 AllInvs == Spelled(BaseInvs, {"long", "short", "eq"})
